@@ -2086,6 +2086,8 @@ static int32_t parse_XTA(ParserBuilder *aParserBuilder,
 
     // Reset position tracking
     tracker.setPath(ch, xpath);
+    // (a text without any token has its diagnostics at its own start, not at the last token of an earlier parse)
+    yylloc.start = yylloc.end = tracker.position;
 
     // Parse string
     int res = 0;
@@ -2113,6 +2115,8 @@ static int32_t parseProperty(ParserBuilder *aParserBuilder, const std::string& x
 
     // Reset position tracking
     tracker.setPath(ch, xpath);
+    // (a text without any token has its diagnostics at its own start, not at the last token of an earlier parse)
+    yylloc.start = yylloc.end = tracker.position;
 
     return utap_parse() ? -1 : 0;
 }
